@@ -35,7 +35,7 @@ class AbstractHelp(Component):
     def _format_help(self, help, **placeholders):  # type: (str, ...) -> str
         try:
             return help.format(**placeholders)
-        except (KeyError, IndexError, ValueError):
+        except (KeyError, IndexError, ValueError, AttributeError, TypeError):
             # Free text with braces of its own: only the placeholders are replaced
             for name, value in placeholders.items():
                 help = help.replace("{" + name + "}", value)
